@@ -613,6 +613,7 @@ func (h *httpWorld) malformed(i int) {
 		{"ws-upgrade-foreign-origin", "GET /ws HTTP/1.1\r\nHost: galene.test\r\nUpgrade: websocket\r\nConnection: Upgrade\r\nSec-WebSocket-Version: 13\r\nSec-WebSocket-Key: dGhlIHNhbXBsZSBub25jZQ==\r\nOrigin: https://evil.example\r\n\r\n"},
 		{"ws-upgrade-http-1.0", "GET /ws HTTP/1.0\r\nUpgrade: websocket\r\nConnection: Upgrade\r\n\r\n"},
 		{"ws-upgrade-with-body", "GET /ws HTTP/1.1\r\nHost: galene.test\r\nUpgrade: websocket\r\nConnection: Upgrade\r\nSec-WebSocket-Version: 13\r\nSec-WebSocket-Key: dGhlIHNhbXBsZSBub25jZQ==\r\nContent-Length: 5\r\n\r\nhello"},
+		{"ws-upgrade-with-chunked-body", "GET /ws HTTP/1.1\r\nHost: galene.test\r\nUpgrade: websocket\r\nConnection: Upgrade\r\nSec-WebSocket-Version: 13\r\nSec-WebSocket-Key: dGhlIHNhbXBsZSBub25jZQ==\r\nTransfer-Encoding: chunked\r\n\r\n5\r\nhello\r\n0\r\n\r\n"},
 		{"ws-upgrade-post-with-body", "POST /ws HTTP/1.1\r\nHost: galene.test\r\nUpgrade: websocket\r\nConnection: Upgrade\r\nSec-WebSocket-Version: 13\r\nSec-WebSocket-Key: dGhlIHNhbXBsZSBub25jZQ==\r\nContent-Length: 5\r\n\r\nhello"},
 		{"very-deep-path", "GET /" + strings.Repeat("a/", 4000) + " HTTP/1.1\r\nHost: x\r\n\r\n"},
 		{"40000-headers", "GET / HTTP/1.1\r\nHost: x\r\n" + strings.Repeat("X-H: v\r\n", 40000) + "\r\n"},
